@@ -48,6 +48,8 @@ def cases(ctx):
     rng = ctx.rng('c12')
     if ctx.mine(0):
         yield {'src': 'repo_data'}
+    for it in range(max(2, ctx.budget(40, 800))):
+        yield {'src': 'table_as_array', 'L': int(rng.choice([8, 16, 64, 100, 128, 512, 1024])), 'seed': int(rng.integers(0, 2 ** 31))}
     n = ctx.budget(1000, 40000)
     for it in range(max(4, n // 25)):
         # files with a single data row: np.loadtxt returns a 0-d (one column) or 1-d (two columns) array
@@ -111,9 +113,36 @@ def run_repo_data(ctx, case):
         ctx.nontrivial(['repo_data'])
 
 
+def run_table_as_array(ctx, case):
+    """a whole tabulated (k, omega) table - rows x 2 columns, or transposed - handed to FromArray as `omega`: the number of POINTS is
+    its first dimension, which differs from the domain length although the number of NUMBERS may equal it"""
+    rng = np.random.default_rng(case['seed'])
+    L = int(case['L'])
+    dom = pyPRISM.Domain(length=L, dr=0.1)
+    k = np.array(dom.k)
+    for shape in ((L // 2, 2), (2, L // 2), (L // 4, 4), (L // 2, 1, 2)):
+        if 0 in shape or int(np.prod(shape)) != L:
+            continue
+        tab = rng.uniform(0.1, 5.0, size=shape)
+        ctx.hook('table_as_array')
+        try:
+            with np.errstate(all='ignore'):
+                out = np.asarray(pyPRISM.omega.FromArray(np.array(tab)).calculate(np.array(k)))
+        except Exception as e:   # noqa
+            if not isinstance(e, (AssertionError, ValueError, IndexError, TypeError)):
+                raise
+            ctx.hook('mismatch.rejected')
+            continue
+        ctx.violation('tab:mismatch-accepted:multidimensional-array', 'FromArray given an array of shape %s (%d points) returned %s values on a %d-point grid instead of raising' % (shape, shape[0], out.shape, L))
+        return
+    ctx.nontrivial(case)
+
+
 def run_case(ctx, case):
     if case.get('src') == 'repo_data':
         return run_repo_data(ctx, case)
+    if case.get('src') == 'table_as_array':
+        return run_table_as_array(ctx, case)
     rng = np.random.default_rng(case['seed'])
     L = int(case['L'])
     dom = pyPRISM.Domain(length=L, dr=case['sp']) if case['dom'] == 'dr' else pyPRISM.Domain(length=L, dk=case['sp'])
